@@ -52,7 +52,7 @@ def MsgValid (W : Votes) (t : Table) (m : Msg) : Prop :=
   match m.phase with
   | .quality => m.round = 0 ∧ m.value ≠ []
   | .converge => 0 < m.round ∧ m.value ≠ [] ∧ ∃ j, m.just = some j ∧ ConvJust W t m.round m.value j
-  | .prepare => m.value ≠ [] ∧ (m.round = 0 → m.just = none) ∧
+  | .prepare => (m.round = 0 → m.just = none) ∧
       (0 < m.round → ∃ j, m.just = some j ∧ ConvJust W t m.round m.value j)
   | .commit => (m.value = [] → m.just = none) ∧
       (m.value ≠ [] → ∃ j, m.just = some j ∧ CommitJust W t m.round m.value j)
